@@ -20,7 +20,19 @@ VAL = 'rules::values'
 
 EV = 'rules::eval'
 
+FS = 'rules::functions::strings'
+FC = 'rules::functions::collections'
+FV = 'rules::functions::converters'
+
 UNITS = {
+    'U-count': dict(functions='functions::collections::count', cls='bounded (<= 3 arguments, every mix of Resolved / Literal / UnResolved, symbolic payloads)',
+                    quick=reg(FC, ['k_count']), thorough=[], assumptions=[STUBS[0]], timeout=600),
+    'U-conv': dict(functions='functions::converters::parse_char/parse_int/parse_bool (+ skip behaviour of all five converters)', cls='complete on the numeric/char/bool payload (single argument); String arms delegate to std parse (trusted)',
+                   quick=reg(FV, ['k_parse_char_int', 'k_parse_int_int_char', 'k_parse_bool_and_skips']), thorough=[], assumptions=[STUBS[0]], timeout=600),
+    'U-substr': dict(functions='functions::strings::substring', cls='bounded (ASCII strings of 0..3 bytes, one 2-byte char + 1 ASCII; all from,to: usize)',
+                     quick=reg(FS, ['k_substr_ascii', 'k_substr_utf8_nopanic', 'k_substr_skips']), thorough=[], assumptions=STUBS, timeout=600),
+    'U-join': dict(functions='functions::strings::join', cls='bounded (3 one-byte strings, one-byte delimiter; empty; non-string; unresolved)',
+                   quick=reg(FS, ['k_join']), thorough=[], assumptions=STUBS, timeout=600),
     'U-cnf': dict(functions='eval::eval_conjunction_clauses (real generic code, T = leaf code)',
                   cls='bounded (all shapes <= 2 lines x <= 2 alternatives quick; <= 3 x 3 thorough; every leaf in PASS/FAIL/SKIP/Err)',
                   quick=reg(EV, ['k_cnf_0', 'k_cnf_1', 'k_cnf_2_22']), thorough=reg(EV, ['k_cnf_2_33', 'k_cnf_3_a1', 'k_cnf_3_a2', 'k_cnf_3_a3']),
